@@ -4,6 +4,7 @@ import (
 	"fmt"
 	"math/rand/v2"
 	"net/netip"
+	"sync/atomic"
 	"time"
 
 	"github.com/jech/storrent/hash"
@@ -763,7 +764,8 @@ func RunUpload(sw *Swarm, rng *rand.Rand) (tr *Tor, stats map[string]int) {
 		opt := RemoteOpts{Fast: rng.IntN(2) == 0, Ext: rng.IntN(2) == 0, Incoming: rng.IntN(2) == 0}
 		r := tr.Connect(opt)
 		if opt.Ext {
-			r.SendExt0(StdExt0(0, 0))
+			// what the leech says about its own request queue is its business: ours stays bounded
+			r.SendExt0(StdExt0([]int64{0, 0, 1, 250, 5000, 1 << 30, 1<<31 - 1}[rng.IntN(7)], 0))
 		}
 		r.HonestAdvert = true
 		if opt.Fast {
@@ -898,6 +900,61 @@ func RunUpload(sw *Swarm, rng *rand.Rand) (tr *Tor, stats map[string]int) {
 					tr.T.Have(uint32(p), true)
 				}
 				sw.Act("refill %v", miss)
+			}
+		case x < 84 && r != nil && !r.StChoking():
+			// a request is being served (the peer actor has looked at the piece and lingers at the yield point
+			// before the store's lock) when the piece is evicted and corrupt data for it starts to arrive
+			bm := tr.T.Pieces.Bitmap()
+			var have []int
+			for p := 0; p < np; p++ {
+				if bm.Get(p) {
+					have = append(have, p)
+				}
+			}
+			if len(have) == 0 {
+				break
+			}
+			p := have[rng.IntN(len(have))]
+			quit := make(chan struct{})
+			var armed, lingering atomic.Bool
+			armed.Store(true)
+			verifhook.SetPoint(func(name string) {
+				if name == "piece.readat.prelock" && armed.CompareAndSwap(true, false) {
+					lingering.Store(true)
+					select {
+					case <-time.After(300 * time.Millisecond):
+					case <-quit:
+					}
+				}
+			})
+			m := refwire.Msg{Kind: refwire.KRequest, Index: uint32(p), Begin: 0, Length: uint32(g.BlockLen(p, 0))}
+			r.Send(m)
+			sentReqs = append(sentReqs, m)
+			sw.Cut()
+			for k := 0; k < 40 && !lingering.Load(); k++ {
+				time.Sleep(50 * time.Millisecond) // uploads are paced
+				sw.Cut()
+			}
+			if lingering.Load() {
+				tr.T.Pieces.Expire(0, nil, func(ix uint32) { tr.T.Have(ix, false) })
+				off := int64(p) * int64(g.PieceLen)
+				for b := 0; b < g.BlocksIn(p); b++ {
+					d := g.Truth(off+int64(b*fixture.Block), g.BlockLen(p, b))
+					for i := range d {
+						d[i] ^= 0x40
+					}
+					tr.T.Pieces.AddData(uint32(p), uint32(b*fixture.Block), d, 0)
+				}
+				sw.Act("piece %d evicted and refilled with corrupt data while a request for it is being served", p)
+				stats["evictions_during_an_upload_read"]++
+			}
+			armed.Store(false)
+			time.Sleep(500 * time.Millisecond)
+			sw.Cut()
+			verifhook.SetPoint(nil)
+			close(quit)
+			if lingering.Load() {
+				tr.T.Pieces.Finalise(uint32(p), hash.Hash(g.PieceHash(p))) // fails its hash: the store discards it
 			}
 		case x < 87:
 			// a missing piece arrives, corrupted, and is still being verified (hashing takes virtual time
